@@ -466,11 +466,21 @@ def corr_cim(ctx, chk, broken):
         lines.append(f'bin {off:x} {bhex}')
         real.append((f'bin#{i} len={len(body)} off={off:#06x}', got))
         # cim2cas
-        args = [os.path.join(chk.WORK, 'cim2cas'), '-cim', fname, '-cas', 'out.cas', '-off', str(off)]
+        # one case in seven converts IN PLACE (input and output name the same file), one more through a hard link: the image must be
+        # read before the output is created
+        casname = 'out.cas'
+        if i % 7 == 3:
+            casname = fname
+        elif i % 7 == 5:
+            try:
+                os.link(os.path.join(d, fname), os.path.join(d, 'out.cas'))
+            except OSError:
+                pass
+        args = [os.path.join(chk.WORK, 'cim2cas'), '-cim', fname, '-cas', casname, '-off', str(off)]
         if nam:
             args += ['-nam', nam.decode()]
         r = subprocess.run(args, cwd=d, stdout=subprocess.PIPE, stderr=subprocess.STDOUT, timeout=60)
-        got = open(os.path.join(d, 'out.cas'), 'rb').read().hex() if r.returncode == 0 and os.path.exists(os.path.join(d, 'out.cas')) else 'exit=%d %s' % (r.returncode, r.stdout[-100:])
+        got = open(os.path.join(d, casname), 'rb').read().hex() if r.returncode == 0 and os.path.exists(os.path.join(d, casname)) else 'exit=%d %s' % (r.returncode, r.stdout[-100:])
         lines.append(f'cas {off:x} {nam.hex() or "-"} {fname.encode().hex()} {bhex}')
         real.append((f'cas#{i} len={len(body)} off={off:#06x} nam={nam!r} file={fname}', got))
         classes.add((min(len(body), 300) if len(body) < 300 else (len(body) >> 12) + 300, min(len(nam), 7), off == 0, off == 0x10000 - len(body)))
@@ -490,7 +500,7 @@ def corr_cim(ctx, chk, broken):
     shutil.rmtree(tmp, ignore_errors=True)
     cov = {'evaluations': len(lines), 'distinct_nontrivial': len(classes),
            'rule': 'one evaluation = one run of the built cim2bin or cim2cas binary (go build from /repo) on a generated image file; lengths {1,2,3,255..257,4095,4096,0x7fff,0x8000,0xffff,0x10000} and random, '
-                   'offsets {0, largest that fits, one less, 0xA000, random}, names of length 0 (default = file name),1,5,6,7,8,12 and blank-but-not-empty names (spaces, tabs); one image in eight is itself shaped like an output file (a BIN container with a header consistent, or just not consistent, with the image length; a CAS prefix); whole output compared byte for byte with the model; '
+                   'offsets {0, largest that fits, one less, 0xA000, random}, names of length 0 (default = file name),1,5,6,7,8,12 and blank-but-not-empty names (spaces, tabs); cim2cas also in place and through a hard link (input and output the same file); one image in eight is itself shaped like an output file (a BIN container with a header consistent, or just not consistent, with the image length; a CAS prefix); whole output compared byte for byte with the model; '
                    'distinct = distinct (length class, name length class, offset edge) combinations',
            'correspondence': {'cases': len(cases), 'runs': len(lines)}}
     return out, cov
